@@ -580,6 +580,13 @@ impl TDigestMut {
         };
         check_non_nan(min, "min")?;
         check_non_nan(max, "max")?;
+        // every centroid and buffered value takes space in the image
+        let (centroid_size, value_size) = if is_f32 { (8, 4) } else { (16, 8) };
+        if num_centroids > cursor.remaining() / centroid_size
+            || num_buffered > cursor.remaining() / value_size
+        {
+            return Err(Error::insufficient_data("centroids"));
+        }
         let mut centroids = Vec::with_capacity(num_centroids);
         let mut centroids_weight = 0u64;
         for _ in 0..num_centroids {
@@ -597,7 +604,7 @@ impl TDigestMut {
             check_non_nan(mean, "centroid mean")?;
             check_finite(mean, "centroid")?;
             let weight = check_nonzero(weight, "centroid weight")?;
-            centroids_weight += weight.get();
+            centroids_weight = add_weight(centroids_weight, weight)?;
             centroids.push(Centroid { mean, weight });
         }
         let mut buffer = Vec::with_capacity(num_buffered);
@@ -654,6 +661,9 @@ impl TDigestMut {
                 }
                 let num_centroids =
                     cursor.read_u32_be().map_err(make_error("num_centroids"))? as usize;
+                if num_centroids > cursor.remaining() / 16 {
+                    return Err(Error::insufficient_data_of("compat double format", "centroids"));
+                }
                 let mut total_weight = 0u64;
                 let mut centroids = Vec::with_capacity(num_centroids);
                 for _ in 0..num_centroids {
@@ -662,7 +672,7 @@ impl TDigestMut {
                     let weight = check_nonzero(weight, "centroid weight in compat double format")?;
                     check_non_nan(mean, "centroid mean in compat double format")?;
                     check_finite(mean, "centroid mean in compat double format")?;
-                    total_weight += weight.get();
+                    total_weight = add_weight(total_weight, weight)?;
                     centroids.push(Centroid { mean, weight });
                 }
                 Ok(TDigestMut::make(
@@ -704,7 +714,7 @@ impl TDigestMut {
                     let weight = check_nonzero(weight, "centroid weight in compat float format")?;
                     check_non_nan(mean, "centroid mean in compat float format")?;
                     check_finite(mean, "centroid mean in compat float format")?;
-                    total_weight += weight.get();
+                    total_weight = add_weight(total_weight, weight)?;
                     centroids.push(Centroid { mean, weight });
                 }
                 Ok(TDigestMut::make(
@@ -1320,6 +1330,12 @@ fn check_finite(value: f64, tag: &'static str) -> Result<(), Error> {
     }
 
     Ok(())
+}
+
+fn add_weight(total: u64, weight: NonZeroU64) -> Result<u64, Error> {
+    total
+        .checked_add(weight.get())
+        .ok_or_else(|| Error::deserial("malformed data: total weight overflows"))
 }
 
 fn check_nonzero(value: u64, tag: &'static str) -> Result<NonZeroU64, Error> {
